@@ -358,18 +358,18 @@ Qed.
 (* how the two sides of the (prepared) slice relate below a depth: they share the spine for a while,
    then they part, and from there on everything right of the left side and left of the right side,
    and everything between them at the parting level, is valid *)
-Inductive Sides (from to st en : rpos) : nat -> Prop :=
+Inductive Sides (Df Dt : nat) (st en : rpos) : nat -> Prop :=
 | Sides_shared d :
-    d < rp_depth from -> d < rp_depth to ->
+    d < Df -> d < Dt ->
     (exists i, rp_index st d = Ok i /\ rp_index en d = Ok i) ->
-    Sides from to st en (S d) -> Sides from to st en d
+    Sides Df Dt st en (S d) -> Sides Df Dt st en d
 | Sides_parted d :
-    RangeOK st en d -> AfterFrom st (S d) -> BeforeFrom en (S d) -> Sides from to st en d.
+    RangeOK st en d -> AfterFrom st (S d) -> BeforeFrom en (S d) -> Sides Df Dt st en d.
 
-Lemma Sides_parted_next from to st en d : Sides from to st en d -> 
-  (RangeOK st en d /\ AfterFrom st (S d) /\ BeforeFrom en (S d)) -> Sides from to st en (S d).
+Lemma Sides_parted_next Df Dt st en d :
+  (RangeOK st en d /\ AfterFrom st (S d) /\ BeforeFrom en (S d)) -> Sides Df Dt st en (S d).
 Proof.
-  intros _ (Hr & Ha & Hb). apply Sides_parted.
+  intros (Hr & Ha & Hb). apply Sides_parted.
   - intros n ei oe si Hp Hsi j c Hc Hj _. eapply Hb; eauto.
   - eapply AfterFrom_mono; [|exact Ha]; lia.
   - eapply BeforeFrom_mono; [|exact Hb]; lia.
@@ -380,7 +380,7 @@ Lemma three_way_VL : forall fuel from start end_ to depth l,
   BeforeFrom from depth -> LastOK from -> TextAt from -> PathMC from ->
   AfterFrom to depth -> LastOK to -> TextAt to ->
   LastOK start -> TextAt start -> LastOK end_ -> TextAt end_ -> PathMC end_ ->
-  Sides from to start end_ depth -> VL l.
+  Sides (rp_depth from) (rp_depth to) start end_ depth -> VL l.
 Proof.
   induction fuel as [|fuel IH]; intros from start end_ to depth l H Hbf Hlf Htf Hmf Hat Hlt Htt Hls Hts Hle Hte Hme Hsides;
     [discriminate|].
@@ -428,7 +428,7 @@ Proof.
         eapply close_V; [exact Ec | apply Hos; reflexivity |].
         eapply IH; [exact Ei|auto..|].
         inversion Hsides as [d Hdf Hdt Hidx Hnext|d Hr Ha Hb]; subst; [exact Hnext|].
-        eapply Sides_parted_next; eauto.
+        apply Sides_parted_next; auto.
       + apply Nat.eqb_neq in Esame.
         destruct Hparted as (Hr & Ha & Hb).
         { intros si' ei' os' oe' _ _ E1' E2'. inversion E1'; inversion E2'; subst; auto. }
@@ -783,7 +783,7 @@ Lemma replace_outer_V : forall fuel from to sl depth r,
   depth <= rp_depth from - sl_open_start sl ->
   (forall st en, prepare_slice s sl from = Ok (st, en) ->
      LastOK st /\ TextAt st /\ LastOK en /\ TextAt en /\ PathMC en /\
-     forall d, d <= rp_depth from - sl_open_start sl -> Sides from to st en d) ->
+     forall d, d <= rp_depth from - sl_open_start sl -> Sides (rp_depth from) (rp_depth to) st en d) ->
   V r.
 Proof.
   induction fuel as [|fuel IH]; intros from to sl depth r H Hvf Hvt Hlf Hlt Htf Htt Hnf Hnt Hsame Hclosed Hdepth Hprep;
@@ -859,23 +859,26 @@ Qed.
 Theorem node_replace_valid doc from to sl d' :
   V doc -> node_replace s doc from to sl = Ok d' ->
   (sl_open_start sl = 0 -> sl_open_end sl = 0 -> VL (sl_content sl)) ->
-  (forall rf rt st en, resolve s doc from = Ok rf -> resolve s doc to = Ok rt -> prepare_slice s sl rf = Ok (st, en) ->
+  (forall rf rt st en, resolve s doc from = Ok rf -> resolve s doc to = Ok rt ->
+     sl_open_start sl <= rp_depth rf -> rp_depth rt = rp_depth rf - sl_open_start sl + sl_open_end sl ->
+     prepare_slice s sl rf = Ok (st, en) ->
      LastOK st /\ LastOK en /\ PathMC en /\
-     forall d, d <= rp_depth rf - sl_open_start sl -> Sides rf rt st en d) ->
+     forall d, d <= rp_depth rf - sl_open_start sl -> Sides (rp_depth rf) (rp_depth rt) st en d) ->
   V d'.
 Proof.
   intros Hd H Hclosed Hprep. unfold node_replace in H.
   destruct (resolve s doc from) as [rf|] eqn:Ef; [|discriminate]. cbn [bind] in H.
   destruct (resolve s doc to) as [rt|] eqn:Et; [|discriminate]. cbn [bind] in H.
-  unfold replace_rp in H. destruct (rp_depth rf <? sl_open_start sl); [discriminate|].
-  destruct (negb _); [discriminate|].
+  unfold replace_rp in H. destruct (rp_depth rf <? sl_open_start sl) eqn:E1; [discriminate|].
+  apply Nat.ltb_ge in E1.
+  destruct (negb _) eqn:E2; [discriminate|]. apply negb_false_iff in E2. apply Z.eqb_eq in E2.
   destruct (resolve_spec _ _ _ Ef) as (_ & Hlf & Htf & (i1 & o1 & r1 & Hh1) & Hnf).
   destruct (resolve_spec _ _ _ Et) as (_ & Hlt & Htt & (i2 & o2 & r2 & Hh2) & Hnt).
   eapply replace_outer_V; eauto using resolve_PathV.
   - unfold rp_node, path_at. rewrite Hh1, Hh2. reflexivity.
   - lia.
   - intros st en Hp. destruct (prepare_slice_TextAt _ _ _ _ Hp) as [Hts Hte].
-    destruct (Hprep _ _ _ _ eq_refl eq_refl Hp) as (Ha & Hb & Hm & Hsd). auto 10.
+    destruct (Hprep _ _ _ _ eq_refl eq_refl E1 ltac:(lia) Hp) as (Ha & Hb & Hm & Hsd). auto 10.
 Qed.
 
 End WithSchema.
